@@ -34,6 +34,7 @@ ASSUMPTIONS = [
     'completely before writing out (C01 proves this for lincomb; NumPy element-wise ufuncs with out aliased to an input)',
     'operator parameters (g, element-valued sigma, bounds, translation, vectors) are not the same objects as x/out',
     'x and out are either the same element or share no array (no partial overlap, no views)',
+    'an operator object keeps no state between calls (outside the translator grammar: fails closed; probed by call histories)',
     'shape information lives in the space: set_zero/ZeroOperator write zeros of the space shape',
 ]
 TRUSTED = [
